@@ -618,8 +618,11 @@ class AffineTransform(BaseTransform):
 
     def __init__(self, xp, dtype=None):
         super().__init__(xp=xp, dtype=dtype)
-        self._mean = None
-        self._std = None
+        # The identity until fitted, so that an untrained flow can be
+        # evaluated, sampled and saved
+        self._mean = 0.0
+        self._std = 1.0
+        self.log_abs_det_jacobian = 0.0
 
     def fit(self, x):
         self._mean = x.mean(0)
